@@ -493,13 +493,15 @@ type watcher struct {
 	cancel context.CancelFunc
 	done   chan error
 	marker chan struct{}
+	syncCh chan struct{} // closed at the first sync marker
 	mu     sync.Mutex
 	synced bool
 }
 
 func startWatcher(addr string, pool *x509.CertPool, t exportTarget, queries [][]string) *watcher {
 	ctx, cancel := context.WithCancel(context.Background())
-	w := &watcher{name: t.Name, cc: client.New(), cancel: cancel, done: make(chan error, 1), marker: make(chan struct{})}
+	w := &watcher{name: t.Name, cc: client.New(), cancel: cancel, done: make(chan error, 1), marker: make(chan struct{}),
+		syncCh: make(chan struct{})}
 	q := client.Query{Addrs: []string{addr}, Target: t.Name, Type: client.Stream, Timeout: 10 * time.Second,
 		TLS: &tls.Config{RootCAs: pool, ServerName: "localhost"}}
 	for _, p := range queries {
@@ -510,6 +512,9 @@ func startWatcher(addr string, pool *x509.CertPool, t exportTarget, queries [][]
 		switch v := n.(type) {
 		case client.Sync:
 			w.mu.Lock()
+			if !w.synced {
+				close(w.syncCh)
+			}
 			w.synced = true
 			w.mu.Unlock()
 		case client.Update:
@@ -694,7 +699,7 @@ func runScenario(sc scenario, collectorBin, cliBin, scratch string, idx int) (re
 	defer func() {
 		stop()
 		if rep.Observation != "ok" {
-			rep.CollectorLog = tail(logFile, 3000)
+			rep.CollectorLog = tail(logFile, 40000)
 		}
 	}()
 	serving := false
@@ -772,6 +777,17 @@ func runScenario(sc scenario, collectorBin, cliBin, scratch string, idx int) (re
 		}
 		select {
 		case <-ws[i].marker:
+			// The end marker may reach a client that subscribed late inside the initial walk, whose order
+			// is the tree's, not the stream's: only the sync marker says that the walk is complete.  (A
+			// marker streamed after the sync marker comes behind everything the target sent before it.)
+			select {
+			case <-ws[i].syncCh:
+			case err := <-ws[i].done:
+				fail("timeout:"+t.Name, "the STREAM client of %s ended before the sync marker: %v", t.Name, err)
+			case <-time.After(wait):
+				fail("timeout:"+t.Name, "no sync marker for the STREAM client of %s", t.Name)
+				wait = time.Second
+			}
 		case err := <-ws[i].done:
 			fail("timeout:"+t.Name, "the STREAM client of %s ended before the end marker: %v", t.Name, err)
 		case <-time.After(wait):
